@@ -23,8 +23,14 @@ MOD = 'vlib.props.c07'
 R_ = z3.Real
 
 
-def u_align2(pattern=(0, 1), npts=1, rot0=2, theta='free'):
-    """points_to_curve on a symbolic 2-edge curve; theta: 'free' | 0 | 'half' (pi/2) = rotation part of the final parameters"""
+# concrete scenes: curve start, edge lengths (pattern (0, 1): right then up), input points, initial translation
+SCENES2 = [{'p0': (0, 0), 'lens': (4, 3), 'points': [('1', '-1/2')], 't0': ('3/10', '-1/5')},
+           {'p0': (0, 0), 'lens': (4, 3), 'points': [('7/2', '-1/4'), ('9/2', '2')], 't0': ('-1/5', '1/10')}]
+
+
+def u_align2(pattern=(0, 1), npts=1, rot0=2, theta='free', scene=None):
+    """points_to_curve on a symbolic 2-edge curve; theta: 'free' | 0 | 'half' (pi/2) = rotation part of the final parameters.
+    scene = index of a concrete scene (curve, input points, initial translation concrete; only the final parameters symbolic)"""
     n = len(pattern) + 1
     tol, pts, ks, base, kp = setup(n, pattern, 2, 'open')
     T0 = Iso(2, rot0, px='i')
@@ -32,6 +38,18 @@ def u_align2(pattern=(0, 1), npts=1, rot0=2, theta='free'):
     x = [R_('x0'), R_('x1')]
     ok = z3.Bool('lm_ok')
     base = base + T0.base + bounded(*[c for p in P for c in p]) + bounded(*x, b=100)
+    if scene is not None:
+        sc = SCENES2[scene]
+        base += [tol == rat('1/1000'), pts[0][0] == rat(sc['p0'][0]), pts[0][1] == rat(sc['p0'][1])] + [ks[i] == rat(sc['lens'][i]) for i in range(len(ks))]
+        base += [P[i][k] == rat(sc['points'][i][k]) for i in range(npts) for k in range(2)] + [T0.t[k] == rat(sc['t0'][k]) for k in range(2)]
+        # substitute the concrete values so that the initial state needs no case split
+        sub = [(tol, rat('1/1000')), (pts[0][0], rat(sc['p0'][0])), (pts[0][1], rat(sc['p0'][1]))] + [(ks[i], rat(sc['lens'][i])) for i in range(len(ks))]
+        pts = [[z3.simplify(z3.substitute(c, *sub)) for c in p] for p in pts]
+        ks = [rat(v) for v in sc['lens']]
+        tol_c = rat('1/1000')
+        P = [[rat(sc['points'][i][k]) for k in range(2)] for i in range(npts)]
+        T0.t = [rat(v) for v in sc['t0']]
+        kp = []
     st = {}
     M = get_mir()
     f_set = M.resolve('<PointsToCurve as LeastSquaresProblem<f64, Dyn, U3>>::set_params')
@@ -49,7 +67,7 @@ def u_align2(pattern=(0, 1), npts=1, rot0=2, theta='free'):
         return eng.branch(ok)
 
     def composite(eng, _a):
-        r = eng.call('Curve2::from_points', [Ref.to(points_vec(pts)), tol, False])
+        r = eng.call('Curve2::from_points', [Ref.to(points_vec(pts)), rat('1/1000') if scene is not None else tol, False])
         if r.v != 'Ok':
             return {'curve': None}
         c = r.f[0]
@@ -90,20 +108,21 @@ def u_align2(pattern=(0, 1), npts=1, rot0=2, theta='free'):
             obs.append(eq(f'rotation centre is the mean of the input points [{k}]', num(rc[k]) * npts, sum((p[k] for p in P[1:]), P[0][k]), scale=8 * B))
         return obs
 
-    inp = curve_inputs(pts, tol, {'x0': x[0], 'x1': x[1], 'lm_ok': ok})
-    inp.update(T0.inp)
+    inp = curve_inputs(pts, tol if scene is None else rat('1/1000'), {'x0': x[0], 'x1': x[1], 'lm_ok': ok})
+    inp.update(T0.inp if scene is None else {f'i{c}': T0.t[k] for k, c in enumerate('xy')})
     inp.update({f'm{i}{c}': P[i][k] for i in range(npts) for k, c in enumerate('xy')})
     if theta == 'free':
         inp.update(ang_inputs('th'))
-    return Unit(f'points_to_curve[{[DIRS2[d] for d in pattern]},points={npts},final rotation={theta}]', composite, lambda eng: ([], None), post, base=base, known_pos=kp, inputs=inp,
+    return Unit(f'points_to_curve[{[DIRS2[d] for d in pattern]},points={npts},final rotation={theta}{",concrete scene " + str(scene) if scene is not None else ""}]', composite, lambda eng: ([], None), post, base=base, known_pos=kp, inputs=inp,
                 observers={'minimize': lm_minimize, 'was_successful': was_successful, 'LevenbergMarquardt::new': lambda eng, callee, args: Opaque('LevenbergMarquardt')}, const_generics={'D': 2},
-                replay=('align2', lambda mm: {'pts': model_pts(mm, n, 2), 'tol': mm['tol'], 'points': [[mm[f'm{i}x'], mm[f'm{i}y']] for i in range(npts)], 'iso': T0.json(mm)}), loop_budget=16 * n + 8 * npts + 32, max_paths=20000,
+                replay=('align2', lambda mm: {'pts': model_pts(mm, n, 2), 'tol': mm['tol'], 'points': [[mm[f'm{i}x'], mm[f'm{i}y']] for i in range(npts)], 'iso': T0.json(mm),
+                                           'x': [mm['x0'], mm['x1'], ang(mm, 'th') if theta == 'free' else (0.0 if theta == 0 else 1.5707963267948966)]}), loop_budget=16 * n + 8 * npts + 32, max_paths=20000,
                 bounds={'curve': f'{n - 1} edges in direction classes', 'input points': f'{npts} symbolic', 'initial isometry': T0.label(), 'final parameters': f'|translation| <= 100, rotation {theta}'},
                 assumptions=['LevenbergMarquardt::minimize by contract: returns the problem after a last set_params(x*) for an arbitrary x*, with a report that is successful or not (dependency)',
                              'parry Polyline projection by contract (C02)'], timeout_ms=15000)
 
 
-def u_align3(mode='ToPlane', rot0=1, rx='zero', tri=0):
+def u_align3(mode='ToPlane', rot0=1, rx='zero', tri=0, scene=None):
     """points_to_mesh on one concrete triangle, one symbolic point; final parameters: symbolic translation, rotation about x by 0 or pi/2"""
     from .c02 import TRI_V, TRI_F
     from .c14 import mesh_val
@@ -115,7 +134,13 @@ def u_align3(mode='ToPlane', rot0=1, rx='zero', tri=0):
     st = {}
     M = get_mir()
     f_set = M.resolve('<PointsToMesh as LeastSquaresProblem<f64, Dyn, U6>>::set_params')
-    faces = [TRI_F[tri]]
+    faces = [TRI_F[tri]] if tri in (0, 1) else list(TRI_F)
+    if scene is not None:
+        # concrete input point and initial translation (only the final parameters symbolic); the point overhangs the boundary of the mesh
+        sc = [{'p': ('5/2', '1/2', '3/4'), 't0': ('1/5', '-1/10', '1/10')}, {'p': ('1', '5/2', '1/2'), 't0': ('-1/10', '1/5', '0')}][scene]
+        P = [rat(v) for v in sc['p']]
+        T0.t = [rat(v) for v in sc['t0']]
+        base = bounded(*x, b=10)
 
     def lm_minimize(eng, callee, args):
         problem = unref(args[1])
@@ -167,10 +192,11 @@ def u_align3(mode='ToPlane', rot0=1, rx='zero', tri=0):
             obs.append(eq(f'rotation centre is the mean of the input points [{k}]', num(rc[k]), P[k], scale=40))
         return obs
 
-    inp = {**T0.inp, 'm0x': P[0], 'm0y': P[1], 'm0z': P[2], 'x0': x[0], 'x1': x[1], 'x2': x[2], 'lm_ok': ok}
-    return Unit(f'points_to_mesh[{mode},{T0.label()},final rx={rx},triangle {tri}]', composite, lambda eng: ([], None), post, base=base, inputs=inp, const_generics={'D': 3},
+    inp = {**(T0.inp if scene is None else {f'i{c}': T0.t[k] for k, c in enumerate('xyz')}), 'm0x': P[0], 'm0y': P[1], 'm0z': P[2], 'x0': x[0], 'x1': x[1], 'x2': x[2], 'lm_ok': ok}
+    return Unit(f'points_to_mesh[{mode},{T0.label()},final rx={rx},triangle {tri}{",concrete scene " + str(scene) if scene is not None else ""}]', composite, lambda eng: ([], None), post, base=base, inputs=inp, const_generics={'D': 3},
                 observers={'minimize': lm_minimize, 'was_successful': lambda eng, callee, args: eng.branch(ok), 'LevenbergMarquardt::new': lambda eng, callee, args: Opaque('LevenbergMarquardt')},
-                replay=('align3', lambda mm: {'vertices': TRI_V, 'faces': faces, 'point': [mm['m0x'], mm['m0y'], mm['m0z']], 'iso': T0.json(mm), 'mode': mode}), loop_budget=128, max_paths=20000,
+                replay=('align3', lambda mm: {'vertices': TRI_V, 'faces': faces, 'point': [mm['m0x'], mm['m0y'], mm['m0z']], 'iso': T0.json(mm), 'mode': mode,
+                                           'x': [mm['x0'], mm['x1'], mm['x2'], 0.0 if rx == 'zero' else 1.5707963267948966, 0.0, 0.0]}), loop_budget=128, max_paths=20000,
                 bounds={'mesh': f'triangle {tri} of the folded quad', 'input points': '1 symbolic, |coords| <= 10', 'initial isometry': T0.label() + ', |t| <= 10', 'final parameters': f'|translation| <= 10, rotation about x: {rx}'},
                 assumptions=['LevenbergMarquardt::minimize by contract (see module docstring)', 'parry TriMesh projection by contract (C02)'], timeout_ms=15000)
 
@@ -191,13 +217,17 @@ JUDGES = {'*': j_align}
 UNITS = {
     'quick': [('u_align2', {'pattern': (0, 1), 'npts': 1, 'rot0': 2, 'theta': 'free'}), ('u_align2', {'pattern': (4, 3), 'npts': 1, 'rot0': 0, 'theta': 'half'}),
               ('u_align2', {'pattern': (6, 0), 'npts': 1, 'rot0': 3, 'theta': 0}),
-              ('u_align3', {'mode': 'ToPlane', 'rot0': 1, 'rx': 'zero', 'tri': 0}), ('u_align3', {'mode': 'ToPoint', 'rot0': 0, 'rx': 'half', 'tri': 0})],
+              ('u_align2', {'pattern': (0, 1), 'npts': 1, 'rot0': 2, 'theta': 'free', 'scene': 0}), ('u_align2', {'pattern': (0, 1), 'npts': 2, 'rot0': 3, 'theta': 'half', 'scene': 1}),
+              ('u_align2', {'pattern': (0, 1), 'npts': 2, 'rot0': 2, 'theta': 0, 'scene': 1}),
+              ('u_align3', {'mode': 'ToPlane', 'rot0': 1, 'rx': 'zero', 'tri': 0}), ('u_align3', {'mode': 'ToPoint', 'rot0': 0, 'rx': 'half', 'tri': 0}),
+              ('u_align3', {'mode': 'ToPlane', 'rot0': 0, 'rx': 'zero', 'tri': 2, 'scene': 0}), ('u_align3', {'mode': 'ToPlane', 'rot0': 3, 'rx': 'zero', 'tri': 2, 'scene': 1}),
+              ('u_align3', {'mode': 'ToPoint', 'rot0': 0, 'rx': 'zero', 'tri': 2, 'scene': 0})],
     'thorough': [('u_align2', {'pattern': p, 'npts': 1, 'rot0': r, 'theta': th}) for p in ((0, 1), (4, 3), (6, 0), (1, 7)) for r in (0, 2, 3) for th in ('free', 'half', 0)] +
                 [('u_align3', {'mode': m, 'rot0': r, 'rx': a, 'tri': t}) for m in ('ToPlane', 'ToPoint') for r in (0, 1, 2) for a in ('zero', 'half') for t in (0, 1)],
 }
 
 
 def run(v, tier, seed, only=None):
-    jobs = [(MOD, f, k) for (f, k) in UNITS[tier] if not only or any(o in f for o in only.split(','))]
+    jobs = [(MOD, f, k) for (f, k) in UNITS[tier] if not only or any(o in f + str(k) for o in only.split(','))]
     res = run_jobs(jobs, seed=seed, procs=14, timeout_s=900 if tier == 'quick' else 3000)
     fold_results(v, res, JUDGES, 'C07')
